@@ -152,6 +152,17 @@ def curated_full():
     add(('two-grps', cat(grp(cat(a, LINE, a)), grp(cat(LINE, a)))))
     add(('grp-then-text', cat(grp(cat(a, LINE, a)), a)))
     add(('grp-in-nest-then-line', cat(a, nest(cat(LINE, grp(cat(a, LINE, a)))), LINE, a)))
+    # a group in a nest, followed on the same line by text of a shallower level
+    add(('grp-in-nest-then-text', cat(a, nest(cat(LINE, grp(cat(a, LINE, a)))), a)))
+    add(('grp-in-2nests-then-text', nest(cat(a, nest(cat(HARD, grp(cat(a, LINE, a)))), a, LINE, a))))
+    # align / hang reached at a column left of the nesting level (no break since the nest)
+    add(('align-left-of-nest', nest(align(grp(cat(a, LINE, a))))))
+    add(('align-left-of-nest-2', cat(a, nest(align(grp(cat(a, LINE, a)))))))
+    add(('hang-left-of-nest', cat(a, nest(hang(grp(cat(a, LINE, a)))))))
+    # groups whose only choices sit inside an align / hang
+    add(('grp-of-align', grp(align(cat(a, LINE, a)))))
+    add(('grp-of-hang', grp(hang(cat(a, LINE, a)))))
+    add(('grp-of-text-align-text', grp(cat(a, align(cat(a, LINE, a)), a))))
     add(('align-grp', cat(a, align(grp(cat(a, LINE, a))))))
     add(('align-hard', cat(a, align(cat(a, HARD, a)))))
     add(('align-in-grp', grp(cat(a, S(' '), align(cat(a, LINE, a))))))
@@ -211,6 +222,9 @@ def curated_full():
     add(('cat1-grp', cat(grp(cat(a, LINE, a)))))
     add(('cat1-hard', grp(cat(a, LINE, cat(HARD), a))))
     add(('fill1-ab', grp(cat(a, LINE, fill(ab(cat(a, LINE, a)))))))
+    # a fill inside an item of another fill (directly / below a group)
+    add(('fill-in-fill', fill(fill(a, LINE, a, LINE, a), LINE, a)))
+    add(('fill-in-fill-grp', fill(a, LINE, grp(cat(S('('), fill(a, LINE, a, LINE, a), S(')'))), LINE, a)))
     # the same document object used at two places (different indentation / column)
     _al = align(cat(a, LINE, a))
     add(('shared-align', cat(nest(cat(a, HARD, sh('A', _al)), off=('c', 4)), HARD, S('....'), sh('A', _al))))
